@@ -325,11 +325,12 @@ Definition v_neg (v : value) : res value :=
   | VVoid => Err EBadOp
   end.
 
-Definition v_abs (v : value) : res value :=
+(* balance_t::abs builds a new balance by adding the absolute values: zero entries drop out *)
+Definition v_abs (ord : bool) (v : value) : res value :=
   match v with
   | VInt x => Ok (VInt (Z.abs x))
   | VAmt a => Ok (VAmt (amt_abs a))
-  | VBal b => Ok (VBal (map amt_abs b))
+  | VBal b => do r <- bal_fold (bal_add_amt ord) [] (map amt_abs b); Ok (VBal r)
   | _ => Err EBadOp
   end.
 
@@ -342,7 +343,7 @@ Definition v_eqb (v w : value) : res bool :=
   | VInt x, VInt y => Ok (x =? y)
   | VInt x, VAmt b => Ok (amt_eqb b (amt_of_Z x))
   | VInt x, VBal c => Ok (bal_eqb_amt c (amt_of_Z x))
-  | VAmt a, VInt y => Ok (amt_eqb a (amt_of_Z y))
+  | VAmt a, VInt y => Ok (Qeq_bool (aq a) (inject_Z y))   (* amount == long: compare(val) == 0, quantities only *)
   | VAmt a, VAmt b => Ok (amt_eqb a b)
   | VAmt a, VBal c => Ok (bal_eqb_amt c a)
   | VBal b, VInt y => Ok (bal_eqb_amt b (amt_of_Z y))
@@ -438,7 +439,7 @@ Fixpoint aeval (ord : bool) (cp : comm -> Z) (e : aexp) : res value :=
   | ELit a => Ok (VAmt a)
   | EInt z => Ok (VInt z)
   | ENeg e1 => do v <- aeval ord cp e1; v_neg v
-  | EAbs e1 => do v <- aeval ord cp e1; v_abs v
+  | EAbs e1 => do v <- aeval ord cp e1; v_abs ord v
   | EBin o l r =>
       do v <- aeval ord cp l;
       do w <- aeval ord cp r;
